@@ -141,6 +141,38 @@ their reading:
     assigns a name which already existed before the loop (state carried from chunk to chunk) is refused.  That chunking does
     not change an element-wise result is a theorem of the model (`C11.chunked_eq_whole`), not of the translator.
 
+  Extensions (optical kernel, the body of `CphotAng.run`: gathers, shifted views, outer products), all opt-in or reached only
+  by constructs that were Unsupported before:
+  * integer gathers.  `np.int32(x)` / `np.int64(x)` / `x.astype(int)` of a symbolic real array is the truncation toward zero
+    `Scalar.trunc x : Int` (`SymZ`); used as a number it is `Scalar.ofInt (Scalar.trunc x)` (exact conversion), used as an index
+    of a table declared in `FnSpec.sym_lists` (an input `List α` of unknown length; an ATTRIBUTE path like `self.aOD55` may
+    now be declared there, not only a subscript expression) it is `List.getD table (Int.toNat (Scalar.trunc x)) 0`.
+    GUARD (stated in the docstring of the generated definition, part of the reading): numpy reads `table[k]` only for
+    `0 <= k < len(table)`; for `-len <= k < 0` it wraps around and outside it raises IndexError, whereas `getD ∘ toNat` reads
+    entry 0 for a negative k and the default 0 beyond the end.  `np.searchsorted(table, x)` (side left) on such a table is the
+    `Nat` index `Np.searchsortedLeft table x` (`SymN`, range 0..len); `table[i]` is `List.getD table i 0` (guard `i < len`: numpy
+    raises at `i = len`), and `table[i - 1]` is `List.getD table (if i = 0 then List.length table - 1 else i - 1) 0` — numpy's
+    wrap-around of the index -1 made explicit.  Other arithmetic on such an index is Unsupported.
+  * `FnSpec.sym_views` (source text of a subscript expression -> lean name): a slice view that the element-wise reading cannot
+    express — a shifted or trimmed axis (`x[:-1]`, `x[1:]`, `u[..., 1:, :]`), or one selected element (`d[izmax]`) — is the
+    named fresh real input: it stands for the element of that view which meets the current element.  The bridging theorem
+    says with what the model fills it (the neighbour along that axis); the Float comparison fills it from the real arrays.
+  * `np.outer(a, b)` and `np.einsum("ab,ac->abc", a, b)` (two operands, no index summed: every input letter is in the output)
+    are the element-wise product `a * b` of the element [.., i, j] view: the element of `a` times the element of `b`.
+  * a store `x[mask, :] = v` / `x[mask, ...] = v` (a Boolean mask on the first axis, full slices after it) is the mask store
+    `x[mask] = v` of the element-wise view.
+  * `FnSpec.outputs` of a fragment may name an EARLIER value of a rebound local as `name@k` (the value after its k-th
+    assignment inside the translated range, k from 0); it is exported under the field name `name_k`.
+  The value of a split reduction with an `axis=` keyword is an array over the remaining axes (not 0-d): it may itself be the
+  term of a later reduction (`np.sum(np.sum(y, axis=-1) * t, axis=-1)`).
+  A fragment reaches only the split reductions inside its range; they keep their number in the whole function's source order.
+  `np.einsum("zje,zw->", a, b)` (subscripts ending in `->`: everything summed) declared in `reductions` is split like `np.sum`:
+  the summand `a * b` of one (z, j, e, w) element is exported, the total is a fresh input.
+  Reductions stay split (`FnSpec.reductions`): the assumed order of `np.sum(axis=…)`, `np.einsum(... -> )` is NOT modelled —
+  the hand-written model folds left to right from 0 over the last axis first; numpy sums pairwise / in blocks.  That both
+  orders give the same real number is list algebra over ℝ; at Float the difference is absorbed by the tolerance of the
+  differential run of the whole kernel (1e-13 relative on the density), and this is part of the trusted base.
+
 What is NOT translated (raises `Unsupported`, i.e. the regeneration fails and the tie is reported broken): loops over
 symbolic data, reductions over an axis of unknown length, fancy indexing, try/with, raise on a symbolic path, calls into third-party code with symbolic
 arguments that are not in the table below and not declared opaque.
@@ -258,6 +290,25 @@ class SymI:
 
     def __repr__(self):
         return f"SymI({self.lean}; {sorted(self.vals)})"
+
+
+class SymZ(Sym):
+    """`np.int32(x)` of a symbolic real: an integer-valued (element-wise) value of Lean type `Int`, `lean` = `(Scalar.trunc x)`"""
+
+    def __repr__(self):
+        return f"SymZ({self.lean})"
+
+
+class SymN(Sym):
+    """a `Nat` index of unknown range into a table of unknown length (`np.searchsorted(table, x)`); `minus` = 1 for `i - 1`
+    (numpy's index -1 wraps to the last entry: made explicit when the table is read)"""
+
+    def __init__(self, lean: str, minus: int = 0):
+        super().__init__(lean)
+        self.minus = minus
+
+    def __repr__(self):
+        return f"SymN({self.lean} - {self.minus})"
 
 
 class SymL:
@@ -453,6 +504,8 @@ class FnSpec:
     sym_lists   : source text of an expression (`self.pexit_grid['beta_rad']`) -> lean name of an input of type `List α`
                   (a table axis of unknown length); see the module docstring
     export_args : opaque callee text -> base name | None: export the symbolic arguments of its calls as `<base>Arg<k>`
+    sym_views   : source text of a subscript expression (`tlen[..., 1:]`) -> lean name of a fresh real input standing for the
+                  element of that shifted / trimmed / selected view (see the module docstring)
     """
     module: str
     qualname: str
@@ -487,8 +540,10 @@ class FnSpec:
     sym_locals: dict = field(default_factory=dict)
     sym_lists: dict = field(default_factory=dict)
     export_args: dict = field(default_factory=dict)
+    sym_views: dict = field(default_factory=dict)
 
     def __post_init__(self):
+        self.sym_views = {ast.unparse(ast.parse(k, mode="eval").body): v for k, v in self.sym_views.items()}
         # the keys of `sym_lists` are compared with `ast.unparse` of the source expression
         self.sym_lists = {ast.unparse(ast.parse(k, mode="eval").body): v for k, v in self.sym_lists.items()}
         if isinstance(self.inline, str):
@@ -536,7 +591,7 @@ class Result:
         out = []
         if isinstance(self.ret, dict):
             sn = s.name[0].upper() + s.name[1:] + "Out"
-            what = (f"the per-element terms under the split reductions of `{s.qualname}` and its returned values" if s.reductions
+            what = getattr(self, "what", None) or (f"the per-element terms under the split reductions of `{s.qualname}` and its returned values" if s.reductions
                     else f"the arguments of the opaque calls of `{s.qualname}` (`…Arg<k>`), what it stores on its object and what it returns (`ret`)"
                     if getattr(self, "has_exports", False)
                     else f"the locals exported from the translated fragment of `{s.qualname}`" if s.fragment is not None
@@ -615,6 +670,7 @@ class Translator:
     # defaults for translators of inlined callees (created without __init__): no class source, no split reductions
     cls = None
     red_name: dict = {}
+    red_axis: set = set()
     reduced: dict = {}
 
     def __init__(self, spec: FnSpec, repo_src: Path):
@@ -700,19 +756,27 @@ class Translator:
             reg(v)
         # reductions: one fresh 0-d input per occurrence, in source order
         self.red_name: dict[int, str] = {}
+        self.red_axis: set = set()
         self.reduced: dict[str, object] = {}
         count: dict[str, int] = {}
-        calls = [c for c in ast.walk(node) if isinstance(c, ast.Call) and dotted(c.func) in spec.reductions]
+        calls = [c for c in ast.walk(node) if isinstance(c, ast.Call) and dotted(c.func) in spec.reductions and self.is_reduction_call(c)]
         for c in sorted(calls, key=lambda c: (c.lineno, c.col_offset)):
             base = spec.reductions[dotted(c.func)]
             k = count.get(base, 0)
             count[base] = k + 1
             self.red_name[id(c)] = f"{base}{k}"
+            if any(kw_.arg == "axis" for kw_ in c.keywords):
+                self.red_axis.add(f"{base}{k}")   # a reduction along ONE axis: its value is an array over the other axes, not 0-d
             reg(f"{base}{k}")
         for v in spec.sym_locals.values():
             if v not in self.params:
                 reg(v)
+        for v in spec.sym_views.values():
+            if v not in self.params:
+                reg(v)
         self.skipped_names: set = set()
+        self.history: dict = {}      # python local -> every value it was bound to, in order (FnSpec.outputs `name@k`)
+        self.guards: list = []       # index guards of the gathers, for the docstring of the generated definition
         self.inlined: list = []      # (callee, AST dump) of every inlined working-tree function, for the source hash
         self.sites: dict = {}        # (call path, lineno, col) -> lean name of a per-call-site opaque input
         self.site_count: dict = {}   # id(list of per-call-site names) -> number of sites named so far
@@ -740,7 +804,7 @@ class Translator:
             return SymB(n)
         if n in self.list_names:
             return SymL(n, None)
-        return Sym(n, scalar=n in self.scalar_names or n in self.red_name.values())
+        return Sym(n, scalar=n in self.scalar_names or (n in self.red_name.values() and n not in self.red_axis))
 
     def sc(self, *vals) -> bool:
         """0-d: every operand is a constant or a 0-d symbol"""
@@ -762,6 +826,16 @@ class Translator:
 
     def bind(self, pyname: str, val):
         """introduce a `let` for a symbolic value and return the atom"""
+        if isinstance(val, SymZ):
+            n = self.fresh(pyname)
+            self.lets.append((f"{n} : Int", val.lean))
+            return SymZ(n)
+        if isinstance(val, SymN):
+            if val.minus:
+                return val
+            n = self.fresh(pyname)
+            self.lets.append((f"{n} : Nat", val.lean))
+            return SymN(n)
         if isinstance(val, Sym):
             n = self.fresh(pyname)
             self.lets.append((n, val.lean))
@@ -812,6 +886,10 @@ class Translator:
 
     def S(self, v) -> str:
         """lean text of a real-valued operand"""
+        if isinstance(v, SymZ):
+            return f"(Scalar.ofInt {v.lean} : α)"    # an integer array in float arithmetic is converted exactly
+        if isinstance(v, SymN):
+            raise Unsupported("a table index (np.searchsorted) used as a number")
         if isinstance(v, Sym):
             return v.lean
         if isinstance(v, Masked):
@@ -903,11 +981,13 @@ class Translator:
                     raise Unsupported(f"local `{sub.id}` is read but was assigned in the skipped code and is not declared in sym_locals")
             elif isinstance(sub, ast.Attribute):
                 p = dotted(sub)
-                if p is not None and (p in self.spec.sym_attrs or p in stored):
+                if p is not None and (p in self.spec.sym_attrs or p in stored or p in self.spec.sym_lists):
                     return False
                 if sub.attr == "pi" and isinstance(sub.value, ast.Name) and self.globals.get(sub.value.id) in (np, math):
                     return False
             elif isinstance(sub, ast.Subscript) and self.spec.sym_lists and ast.unparse(sub) in self.spec.sym_lists:
+                return False
+            elif isinstance(sub, ast.Subscript) and self.spec.sym_views and ast.unparse(sub) in self.spec.sym_views:
                 return False
             elif isinstance(sub, ast.Call):
                 p = dotted(sub.func)
@@ -991,6 +1071,8 @@ class Translator:
             if p in self.spec.sym_attrs:
                 v = self.spec.sym_attrs[p]
                 return tuple(self.inp(n) for n in v) if isinstance(v, (tuple, list)) else self.inp(v)
+            if p in self.spec.sym_lists:
+                return self.inp(self.spec.sym_lists[p])   # a table held by the object: an input of type `List α`
         if node.attr == "pi" and isinstance(node.value, ast.Name) and self.globals.get(node.value.id) in (np, math):
             return Sym("Scalar.pi", scalar=True)
         base = self.ev(node.value, st)
@@ -1059,6 +1141,11 @@ class Translator:
             return isinstance(v, SymB) or (isinstance(v, Masked) and isinstance(v.val, SymB))
         if isinstance(op, (ast.BitAnd, ast.BitOr)) and (is_b(a) or is_b(b)):
             return SymB(f"({self.B(a)} {'&&' if isinstance(op, ast.BitAnd) else '||'} {self.B(b)})")
+        an = a.val if isinstance(a, Masked) else a
+        if isinstance(an, SymN):
+            if isinstance(op, ast.Sub) and is_int(b) and int(b) == 1 and an.minus == 0:
+                return SymN(an.lean, 1)
+            raise Unsupported(f"arithmetic on a table index in `{text}` (only `i - 1` is read)")
         sc = self.sc(a, b)
         if isinstance(op, (ast.Add, ast.Sub, ast.Mult, ast.Div)):
             if (is_b(a) or isinstance(a, (bool, np.bool_))) and (is_b(b) or isinstance(b, (bool, np.bool_))):
@@ -1189,9 +1276,30 @@ class Translator:
             ln = self.spec.sym_lists.get(ast.unparse(node))
             if ln is not None:
                 return self.inp(ln)   # a table axis: an input of type `List α`
+        if self.spec.sym_views:
+            vn = self.spec.sym_views.get(ast.unparse(node))
+            if vn is not None:
+                return self.inp(vn)   # a shifted / trimmed / selected view: a fresh real input
         base = self.ev(node.value, st)
         if isinstance(base, SymL) and base.n is None:
             idx = self.ev(node.slice, st)
+            ix = idx.val if isinstance(idx, Masked) else idx
+            if isinstance(ix, (SymZ, SymN)):
+                tb = dotted(node.value) or ast.unparse(node.value)
+                if isinstance(ix, SymZ):
+                    pos = f"(Int.toNat {ix.lean})"
+                    g = f"`{tb}[{ix.lean}]`: 0 <= {ix.lean} < len({tb})"
+                elif ix.minus == 0:
+                    pos = ix.lean
+                    g = f"`{tb}[{ix.lean}]`: {ix.lean} < len({tb})"
+                elif ix.minus == 1:
+                    pos = f"(if {ix.lean} = 0 then List.length {base.lean} - 1 else {ix.lean} - 1)"
+                    g = f"`{tb}[{ix.lean} - 1]`: {ix.lean} <= len({tb}) (index -1 wraps to the last entry, as in numpy)"
+                else:
+                    raise Unsupported(f"`{ast.unparse(node)}`: index arithmetic other than `i - 1`")
+                if g not in self.guards:
+                    self.guards.append(g)
+                return self.wrap(Sym(f"(List.getD {base.lean} {pos} (Scalar.ofNat 0))"), idx)
             if not is_int(idx):
                 raise Unsupported(f"`{ast.unparse(node)}`: a table axis is read at concrete integer positions only")
             k = int(idx)
@@ -1270,7 +1378,7 @@ class Translator:
             if p in self.spec.export_args:
                 res = self.export_call_args(node, p, site if site is not None else (v if isinstance(v, str) else None), res, st)
             return res
-        if p is not None and p in self.spec.reductions:
+        if p is not None and p in self.spec.reductions and self.is_reduction_call(node):
             return self.reduction(node, st)
         meth = self.method_of_class(node.func)
         if meth is not None:
@@ -1309,6 +1417,23 @@ class Translator:
                 raise Unsupported(f"`{ast.unparse(node)}`: only linspace(lo, hi, n) with a concrete n is translated")
             self.needs.add("Numpy")
             return SymL(f"(Np.linspace {self.S(args[0])} {self.S(args[1])} {int(args[2])})", int(args[2]))
+        if f is np.searchsorted and len(args) == 2 and isinstance(args[0], SymL) and args[0].n is None and not kw:
+            x = args[1]
+            if not isinstance(x.val if isinstance(x, Masked) else x, Sym):
+                raise Unsupported(f"`{ast.unparse(node)}`: the searched value is not a real array")
+            self.needs.add("Numpy")
+            return self.wrap(SymN(f"(Np.searchsortedLeft {args[0].lean} {self.S(x)})"), x)
+        if f in (np.int32, np.int64, np.intp) and len(args) == 1 and not kw and isinstance(args[0], (Sym, Masked)) \
+                and type(args[0].val if isinstance(args[0], Masked) else args[0]) is Sym:
+            return self.wrap(SymZ(f"(Scalar.trunc {self.S(args[0])})"), args[0])
+        if f is np.outer and len(args) == 2 and not kw and self.symbolic(args):
+            return self.arith(ast.Mult(), args[0], args[1], ast.unparse(node))
+        if f is np.einsum and len(args) == 3 and isinstance(args[0], str) and set(kw) <= {"dtype"} and self.symbolic(args):
+            lhs, _, out = args[0].replace(" ", "").partition("->")
+            ins = lhs.split(",")
+            if len(ins) != 2 or not out or set(out) != set("".join(ins)) or any(len(set(t)) != len(t) for t in ins + [out]):
+                raise Unsupported(f"`{ast.unparse(node)}`: only a two-operand einsum that sums no index is the element-wise product")
+            return self.arith(ast.Mult(), args[1], args[2], ast.unparse(node))
         if f is np.searchsorted:
             side = kw.get("side", args[2] if len(args) > 2 else "left")
             if (len(args) >= 2 and isinstance(args[0], np.ndarray) and args[0].ndim == 1 and args[0].dtype == np.float64 and len(args[0])
@@ -1328,6 +1453,9 @@ class Translator:
             # method of a symbolic value: x.copy(), x.astype(float)
             if isinstance(node.func, ast.Attribute):
                 base = self.ev(node.func.value, st)
+                if isinstance(base, (Sym, Masked)) and node.func.attr == "astype" and len(args) == 1 and args[0] in (int, np.int32, np.int64, np.intp) \
+                        and type(base.val if isinstance(base, Masked) else base) is Sym:
+                    return self.wrap(SymZ(f"(Scalar.trunc {self.S(base)})"), base)
                 if isinstance(base, (Sym, Masked)) and node.func.attr in ("copy", "astype", "ravel", "flatten", "squeeze", "item"):
                     return base
                 if isinstance(base, dict) and node.func.attr in ("keys", "values", "items", "get") and not any(self.symbolic(a) for a in args):
@@ -1467,6 +1595,15 @@ class Translator:
         m = next((x for x in leaves if isinstance(x, Masked)), None)
         return m.like(res) if (m is not None and isinstance(res, (Sym, SymB))) else res
 
+    @staticmethod
+    def is_reduction_call(node) -> bool:
+        """a declared reduction callee: every call, except that `np.einsum` reduces only when its subscripts end in `->`
+        (`"zje,zw->"`: everything is summed; an einsum that sums no index is the element-wise product)"""
+        if dotted(node.func) is not None and dotted(node.func).endswith("einsum"):
+            a0 = node.args[0] if node.args else None
+            return isinstance(a0, ast.Constant) and isinstance(a0.value, str) and a0.value.replace(" ", "").endswith("->")
+        return True
+
     def reduction(self, node, st):
         """`np.sum(term)` etc. over a symbolic array: export the term, take the reduced value as a fresh 0-d input"""
         name = self.red_name.get(id(node))
@@ -1474,7 +1611,12 @@ class Translator:
             raise Unsupported(f"reduction `{ast.unparse(node)}` outside the translated function's own body")
         if not node.args:
             raise Unsupported(f"reduction `{ast.unparse(node)}` without a positional argument")
-        term = self.ev(node.args[0], st)
+        if dotted(node.func).endswith("einsum"):
+            if len(node.args) != 3:
+                raise Unsupported(f"reduction `{ast.unparse(node)}`: only the total sum of a product of two operands is read")
+            term = self.arith(ast.Mult(), self.ev(node.args[1], st), self.ev(node.args[2], st), ast.unparse(node))
+        else:
+            term = self.ev(node.args[0], st)
         for k in node.keywords:
             if self.symbolic(self.ev(k.value, st)):
                 raise Unsupported(f"reduction `{ast.unparse(node)}` with a symbolic keyword argument")
@@ -1682,6 +1824,8 @@ class Translator:
         env, stored = st
         if isinstance(target, ast.Name):
             env[target.id] = val if isinstance(val, Partial) else (self.bind(target.id, val) if self.symbolic(val) else val)
+            if not self.path:
+                self.history.setdefault(target.id, []).append(env[target.id])
         elif isinstance(target, (ast.Tuple, ast.List)):
             vals = list(val) if isinstance(val, (tuple, list)) else None
             if vals is None:
@@ -1702,7 +1846,12 @@ class Translator:
                     and (isinstance(env.get(target.value.id), Partial) or self.symbolic(env.get(target.value.id))):
                 self.assign(target.value, val, st)   # `x[...] = v`: every element of x is overwritten
                 return
-            idx = self.ev(target.slice, st)
+            sl = target.slice
+            if isinstance(sl, ast.Tuple) and len(sl.elts) >= 2 and not isinstance(sl.elts[0], (ast.Slice, ast.Constant)) \
+                    and self.is_broadcast_view(ast.Tuple(elts=list(sl.elts[1:]), ctx=ast.Load())) \
+                    and not any(isinstance(e, ast.Constant) and e.value is None for e in sl.elts[1:]):
+                sl = sl.elts[0]   # `x[mask, :] = v`, `x[mask, ...] = v`: the mask store of the element-wise view
+            idx = self.ev(sl, st)
             raw = env.get(target.value.id) if isinstance(target.value, ast.Name) else None
             empty = isinstance(raw, Partial)   # an `np.empty_like` array is not READ by a store into it
             old = raw if empty else self.ev(target.value, st)
@@ -1957,6 +2106,16 @@ class Translator:
         if (r is None or r == ("__none__",)) and sp.fragment is not None and sp.outputs:
             ret = {}
             for k in sp.outputs:
+                if "@" in k:
+                    nm, _, num = k.partition("@")
+                    hist = self.history.get(nm, [])
+                    if not num.isdigit() or int(num) >= len(hist):
+                        raise Unsupported(f"{sp.qualname}: the fragment assigns `{nm}` {len(hist)} time(s); `{k}` does not exist")
+                    v = fin(hist[int(num)])
+                    if isinstance(v, tuple):
+                        raise Unsupported(f"{sp.qualname}: the exported local `{k}` is a tuple")
+                    ret[f"{nm}_{num}"] = v
+                    continue
                 if k not in env:
                     raise Unsupported(f"{sp.qualname}: the fragment no longer assigns `{k}`")
                 v = env[k]
@@ -2028,6 +2187,13 @@ class Translator:
                 raise Unsupported(f"{sp.qualname}: exported arguments clash with the result")
             out.update(rest)
             r = out
+        if sp.fragment is not None and len(self.reduced) != len(self.red_name):
+            # a fragment reaches only the reductions inside its range (they keep their number in the whole function's source
+            # order); the inputs of the others are dropped
+            for key, nm in list(self.red_name.items()):
+                if nm + "Arg" not in self.reduced:
+                    del self.red_name[key]
+                    self.params.remove(nm)
         if len(self.reduced) != len(self.red_name):
             raise Unsupported(f"{sp.qualname}: a declared reduction is not reached")
         if self.reduced:
@@ -2047,6 +2213,8 @@ class Translator:
         res.bools = set(self.bool_names)
         res.lists = set(self.list_names)
         res.has_exports = bool(self.exported) or (isinstance(r, dict) and "ret" in r and not self.reduced)
+        if self.guards:
+            part += ("\n" if part else "") + "index guards of the gathers (outside them numpy wraps around / raises, `getD` reads a default): " + "; ".join(self.guards)
         res.part = part
         res.inlined = list(dict.fromkeys(n for n, _ in self.inlined))
         if self.inlined:
@@ -2055,6 +2223,8 @@ class Translator:
 
 
 def translate(spec: FnSpec, repo_src: Path) -> Result:
+    if hasattr(spec, "translate"):
+        return spec.translate(repo_src)   # a spec with its own reader (harness/cpptrans.py: the C++ stepping loop)
     return Translator(spec, repo_src).run()
 
 
